@@ -194,3 +194,20 @@ Theorem C07_output_len : forall (p : prior) (chunks : list bytes),
   /\ out_len (plen p) (N.of_nat (length (concat chunks))) = N.of_nat (length (concat chunks)).
 Proof. exact output_len. Qed.
 Print Assumptions C07_output_len.
+
+(* ---- the regenerated constants this property's predicate / model rest on, against literals.
+   Gen/Consts.v is rewritten from the source of /repo on every run, so without this theorem an
+   edit of one of these constants would move model, predicate and code together and nothing
+   would be reported.  Used by: the predicate C07.spec ("usable default permissions": nothing the declared umask forbids) and Model/TarMeta.v (members synthesised for absent paths).
+   "frozen" = no manual text gives the value; it is the value of the reviewed tree. *)
+From LC Require Import Gen.Consts Proofs.C07PinsP.
+Local Open Scope string_scope.
+Theorem C07_constants_pinned :
+  (* frozen from the reviewed tree: 0022 octal (no manual text; fix 84bb1a7 in KNOWN_FINDINGS is about this value) *)
+  D_Umask = 18%N /\
+  (* property text: "members synthesised for absent paths get root ownership" *)
+  D_StageFileUID = 0%N /\
+  (* property text: root ownership *)
+  D_StageFileGID = 0%N.
+Proof. exact c07_constants_pinned. Qed.
+Print Assumptions C07_constants_pinned.
